@@ -36,7 +36,7 @@ func builtinJSONParse(call FunctionCall) Value {
 	}
 	if revive {
 		root := ctx.call.runtime.newObject()
-		root.put("", value, false)
+		root.defineProperty("", value, 0o111, false)
 		return builtinJSONReviveWalk(ctx, root, "")
 	}
 	return value
@@ -151,7 +151,7 @@ func builtinJSONParseWalk(ctx builtinJSONParseContext, rawValue interface{}) (Va
 		obj := ctx.call.runtime.newObject()
 		for _, member := range value {
 			if value, exists := builtinJSONParseWalk(ctx, member.value); exists {
-				obj.put(member.name, value, false)
+				obj.defineProperty(member.name, value, 0o111, false)
 			}
 		}
 		return objectValue(obj), true
